@@ -605,6 +605,11 @@ pub fn run(cfg: &Config) -> PropRun {
             }
         }
     }
+    // the numeric boundary table of C08 (2^53/2^63/2^64 neighbourhoods, long hex and decimal forms)
+    for t in crate::numref::boundary_table() {
+        stmts.push(format!("x={t};"));
+        stmts.push(t);
+    }
     for body in ["", "41", "4g", "41\"\"42", "\"\"", "4", "41,42", " 41 ", "é"] {
         for sfx in ["x", "X", "n", "d", "dt", "t", "b", ""] {
             stmts.push(format!("\"{body}\"{sfx}"));
